@@ -17,7 +17,7 @@
 (***************************************************************************)
 EXTENDS TourCache, Json
 
-CONSTANTS MaxActs, MaxMnt, Starts, Durs, Emit,
+CONSTANTS MinActs, MaxActs, MaxMnt, Starts, Durs, Emit,
           CfgShMin, CfgShDh, CfgForbid, CfgAsym, CfgDh   \* one configuration per TLC run (runs go in parallel)
 
 Unit == 600
@@ -38,7 +38,7 @@ NetOptions ==
   UNION { { [svc |-> S, mnt |-> M, cfg |-> c] : S \in KSub(ns, SvcOpts), M \in KSub(nm, MntOpts), c \in Configs }
           : ns \in 0..MaxActs, nm \in 0..MaxMnt }
 Canonical(n) ==
-  /\ Cardinality(n.svc) + Cardinality(n.mnt) \in 1..MaxActs
+  /\ Cardinality(n.svc) + Cardinality(n.mnt) \in MinActs..MaxActs
   /\ 0 \in {a.s : a \in n.svc} \cup {a.s : a \in n.mnt}          \* time-shift symmetry
   /\ n.cfg.forbid => ~n.cfg.asym                                  \* the matrix is irrelevant then
 Init == net \in {n \in NetOptions : Canonical(n)}
